@@ -306,7 +306,7 @@ func (s *scheduler) point(kind, id int, force bool) {
 	s.handOff(t, kind, id, false)
 }
 
-func (s *scheduler) access(site, varID int, write bool) {
+func (s *scheduler) access(site, varID int, write bool, deref bool) {
 	t := s.cur
 	if t == nil || s.aborted {
 		return
@@ -323,6 +323,11 @@ func (s *scheduler) access(site, varID int, write bool) {
 	}
 	if isPoint {
 		s.handOff(t, pointAccess, varID, false)
+	}
+	if deref {
+		// the object a pointer-typed variable points to is a different location than the variable itself
+		s.checkRace(t, site, varID+1<<20, write, "*"+varName(varID))
+		return
 	}
 	s.checkRace(t, site, varID, write, varName(varID))
 }
